@@ -22,6 +22,9 @@ type faultScenario struct {
 	steps  int
 	faults []mstore.Fault
 	d      int
+	// remote: the faults go into the store of remote engine 1 of a distributed engine over
+	// two remote engines instead of the coordinator's store
+	remote bool
 }
 
 func schedFaultScenarios(action string) []faultScenario {
@@ -30,31 +33,35 @@ func schedFaultScenarios(action string) []faultScenario {
 	}
 	return []faultScenario{
 		// one fault per shard of a two-shard selector (series 0/1 -> shard 0, series 2 -> shard 1)
-		{"F1:a/two shards fail in Next", `a`, 4, 2, []mstore.Fault{f("next", 0, 0), f("next", 2, 0)}, 2},
-		{"F2:a/two shards fail while loading", `a`, 4, 2, []mstore.Fault{f("iterator", 0, 0), f("iterator", 2, 0)}, 2},
-		{"F3:a/one shard fails late", `a`, 4, 12, []mstore.Fault{f("next", 2, 3)}, 1},
-		{"F4:a+b/both sides fail while loading", `a + on (l) group_left b`, 2, 2, []mstore.Fault{f("select", -1, 0), f("select", -1, 1)}, 2},
-		{"F5:a+b/left fails in Next", `a + on (l) group_left b`, 2, 2, []mstore.Fault{f("next", 1, 1)}, 2},
-		{"F6:sum by (l)(a)/fault below workers", `sum by (l) (a)`, 4, 2, []mstore.Fault{f("next", 0, 1), f("next", 2, 1)}, 1},
-		{"F7:rate/two shards", `rate(a[1m])`, 4, 2, []mstore.Fault{f("seek", 0, 0), f("next", 2, 1)}, 2},
-		{"F8:-a/fault below unary workers", `-a`, 2, 2, []mstore.Fault{f("next", 1, 0)}, 2},
-		{"F9:querier fails", `a + b`, 2, 2, []mstore.Fault{f("querier", -1, 1)}, 2},
-		{"F10:clamp_min scalar arg fails", `clamp_min(a, scalar(b{l="0"}))`, 2, 2, []mstore.Fault{f("next", 3, 0)}, 2},
+		{"F1:a/two shards fail in Next", `a`, 4, 2, []mstore.Fault{f("next", 0, 0), f("next", 2, 0)}, 2, false},
+		{"F2:a/two shards fail while loading", `a`, 4, 2, []mstore.Fault{f("iterator", 0, 0), f("iterator", 2, 0)}, 2, false},
+		{"F3:a/one shard fails late", `a`, 4, 12, []mstore.Fault{f("next", 2, 3)}, 1, false},
+		{"F4:a+b/both sides fail while loading", `a + on (l) group_left b`, 2, 2, []mstore.Fault{f("select", -1, 0), f("select", -1, 1)}, 2, false},
+		{"F5:a+b/left fails in Next", `a + on (l) group_left b`, 2, 2, []mstore.Fault{f("next", 1, 1)}, 2, false},
+		{"F6:sum by (l)(a)/fault below workers", `sum by (l) (a)`, 4, 2, []mstore.Fault{f("next", 0, 1), f("next", 2, 1)}, 1, false},
+		{"F7:rate/two shards", `rate(a[1m])`, 4, 2, []mstore.Fault{f("seek", 0, 0), f("next", 2, 1)}, 2, false},
+		{"F8:-a/fault below unary workers", `-a`, 2, 2, []mstore.Fault{f("next", 1, 0)}, 2, false},
+		{"F9:querier fails", `a + b`, 2, 2, []mstore.Fault{f("querier", -1, 1)}, 2, false},
+		{"F10:clamp_min scalar arg fails", `clamp_min(a, scalar(b{l="0"}))`, 2, 2, []mstore.Fault{f("next", 3, 0)}, 2, false},
 		// a failure in the 4th batch, when the exchange buffer (2 slots) may be full
-		{"F11:a/failure in the 4th batch", `a`, 2, 41, []mstore.Fault{f("next", 0, 31)}, 2},
-		{"F12:sum by (l)(a)/failure in the 4th batch", `sum by (l) (a)`, 2, 41, []mstore.Fault{f("next", 1, 33)}, 1},
-		{"F13:a+b/failure in the 4th batch", `a + on (l) group_left b`, 2, 41, []mstore.Fault{f("next", 3, 35)}, 1},
+		{"F11:a/failure in the 4th batch", `a`, 2, 41, []mstore.Fault{f("next", 0, 31)}, 2, false},
+		{"F12:sum by (l)(a)/failure in the 4th batch", `sum by (l) (a)`, 2, 41, []mstore.Fault{f("next", 1, 33)}, 1, false},
+		{"F13:a+b/failure in the 4th batch", `a + on (l) group_left b`, 2, 41, []mstore.Fault{f("next", 3, 35)}, 1, false},
 		// the same kinds under delay bounding (a deviation stalls the passed-over threads)
-		{"F14:a/failure in the 4th batch/delays", `a`, 2, 41, []mstore.Fault{f("next", 0, 31)}, 2},
-		{"F15:a/one shard fails late/delays", `a`, 4, 12, []mstore.Fault{f("next", 2, 3)}, 2},
-		{"F16:sum by (l)(a)/failure in the 2nd batch/delays", `sum by (l) (a)`, 2, 12, []mstore.Fault{f("next", 1, 11)}, 2},
-		{"F17:a+b/left fails in the 2nd batch/delays", `a + on (l) group_left b`, 2, 12, []mstore.Fault{f("next", 1, 11)}, 1},
+		{"F14:a/failure in the 4th batch/delays", `a`, 2, 41, []mstore.Fault{f("next", 0, 31)}, 2, false},
+		{"F15:a/one shard fails late/delays", `a`, 4, 12, []mstore.Fault{f("next", 2, 3)}, 2, false},
+		{"F16:sum by (l)(a)/failure in the 2nd batch/delays", `sum by (l) (a)`, 2, 12, []mstore.Fault{f("next", 1, 11)}, 2, false},
+		{"F17:a+b/left fails in the 2nd batch/delays", `a + on (l) group_left b`, 2, 12, []mstore.Fault{f("next", 1, 11)}, 1, false},
 		// operands that load their series lazily (ungrouped aggregations), one of them failing in
 		// Select, with a yield point in every storage callback: no operand may still be inside
 		// the storage when Exec returns
-		{"F18:sum(a)+sum(b)/select of b fails/store yields", `sum(a) + sum(b)`, 2, 2, []mstore.Fault{{Kind: "select", Sel: `{__name__="b"}@-290000,40000`, Series: -1, Nth: 0, Action: action}}, 2},
-		{"F19:sum(a)+sum(b)/select of a fails/store yields", `sum(a) + sum(b)`, 2, 2, []mstore.Fault{{Kind: "select", Sel: `{__name__="a"}@-290000,40000`, Series: -1, Nth: 0, Action: action}}, 2},
-		{"F20:max(a)-min(b)/iterator of b fails/store yields", `max(a) - min(b)`, 2, 2, []mstore.Fault{f("iterator", 3, 0)}, 1},
+		{"F18:sum(a)+sum(b)/select of b fails/store yields", `sum(a) + sum(b)`, 2, 2, []mstore.Fault{{Kind: "select", Sel: `{__name__="b"}@-290000,40000`, Series: -1, Nth: 0, Action: action}}, 2, false},
+		{"F19:sum(a)+sum(b)/select of a fails/store yields", `sum(a) + sum(b)`, 2, 2, []mstore.Fault{{Kind: "select", Sel: `{__name__="a"}@-290000,40000`, Series: -1, Nth: 0, Action: action}}, 2, false},
+		{"F20:max(a)-min(b)/iterator of b fails/store yields", `max(a) - min(b)`, 2, 2, []mstore.Fault{f("iterator", 3, 0)}, 1, false},
+		// a distributed engine: the Select of one remote engine fails while the other remote
+		// engines are still loading (yield points in every storage callback)
+		{"F21:dist sum by (l)(a)/select fails in one remote engine/store yields/delays", `sum by (l) (a)`, 2, 2, []mstore.Fault{f("select", -1, 0)}, 2, true},
+		{"F22:dist a/select fails in one remote engine/store yields/delays", `a`, 2, 2, []mstore.Fault{f("select", -1, 0)}, 2, true},
 	}
 }
 
@@ -67,7 +74,12 @@ func runFaultSched(c *check.Ctx, prop, action string, events []string, oracle fu
 		if !c.Thorough() && d > 1 && (len(events) > 0) {
 			d = 1
 		}
-		s := schedScenario{Scenario: explore.Scenario{Name: fs.name + "/" + action, Case: cs, Delay: strings.HasSuffix(fs.name, "/delays"), StoreYield: strings.HasSuffix(fs.name, "/store yields")}, DQuick: d, DThorough: fs.d}
+		s := schedScenario{Scenario: explore.Scenario{Name: fs.name + "/" + action, Case: cs, Delay: strings.Contains(fs.name, "/delays"), StoreYield: strings.Contains(fs.name, "/store yields")}, DQuick: d, DThorough: fs.d}
+		if fs.remote {
+			s.Case.Faults = nil
+			s.Case.NDist, s.Case.Dist = 2, []int{0, 1, 0, 1, 0}
+			s.DistFaults = map[int][]mstore.Fault{1: fs.faults}
+		}
 		runSchedAllowFailingRoot(c, &s, prop, events, oracle)
 		c.Rep.Extra["sched_faults_fired"] += fired
 		c.Rep.Extra["sched_faults_not_reached"] += notFired
